@@ -92,7 +92,7 @@ def task_source(kind):
         'generated': "return ({'i': i, 'run': _S['run']} for i in range(0 if _S.get('empty') else 230 if _S.get('big') else 6))",
         'generated_lazy': "d = self.get_data_object(); d.set_value([{'i': i, 'run': _S['run']} for i in range(0 if _S.get('empty') else 6)]); return d",
         'listnumpy': "return [np.arange(5) + i + _S['run'] for i in range(0 if _S.get('empty') else 12 if _S.get('big') else 3)]",
-        'dir': "d = self.get_data_object()\n        (d.dir / 'a.txt').write_text('A' * 30 + str(_S['run']))\n        if _S['fault'] == 'raise_midway':\n            raise RuntimeError('boom midway')\n        (d.dir / 'sub').mkdir()\n        (d.dir / 'sub' / 'b.txt').write_text('B' * 30)\n        return d",
+        'dir': "d = self.get_data_object()\n        (d.dir / 'a.txt').write_text('A' * 30 + str(_S['run']))\n        if _S.get('extra'):\n            (d.dir / 'extra.txt').write_text('E')\n        if _S['fault'] == 'raise_midway':\n            raise RuntimeError('boom midway')\n        (d.dir / 'sub').mkdir()\n        (d.dir / 'sub' / 'b.txt').write_text('B' * 30)\n        return d",
         'continues': "d = self.get_data_object()\n        (d.dir / 'part1').write_text('P1-' + str(_S['run']))\n        if _S['fault'] == 'raise_midway':\n            raise RuntimeError('boom midway')\n        (d.dir / 'part2').write_text('P2')\n        d.finished()\n        return d",
     }[kind]
     extra = '        data_class = ListOfNumpyData\n' if kind == 'listnumpy' else ''
